@@ -21,6 +21,7 @@ TRUSTED = ["harness-side undecorated twin interpreter (lib/recdsl.twin_run) used
 THEOREMS = ["C04_recording_transparent", "C04_operation_transparent", "C04_disabled_passthrough",
             "C04_no_leak_under_any_interleaving", "C04_legacy_refuted"]
 
+INTERRUPT_KINDS = ["custom", "keyboard", "sysexit", "genexit"]   # which BaseException an "interrupt" of the program is
 W = dict(rd.DEFAULT_W, fault=0.3, unser=0.08, handler=0.4, discard=0.9, force=0.6, enable=0.5, prep_discards=0.12,
          interrupt=0.08, raise_=0.25, playdata=0.2)
 
@@ -123,7 +124,7 @@ def generate(rng, tier):
             runs.append(dict(kind="record", enabled=rng.random() < 0.9, prm=rd.rand_prm(rng),
                              op=rd.rand_opdef(rng, W, budget=rng.choice([6, 10, 16])), save_fails=rng.random() < 0.15,
                              in_handler=rng.random() < 0.15))
-        cases.append(dict(draws=rd.rand_draws(rng), runs=runs, cassette="memory"))
+        cases.append(dict(interrupt_kind=rng.choice(INTERRUPT_KINDS), draws=rd.rand_draws(rng), runs=runs, cassette="memory"))
     return cases
 
 
